@@ -14,7 +14,7 @@ def layers(toks, spc=0, tier='quick'):
 UG = ['htp_decompressors.c']
 def glue(scen, len1, len2=0, tier='quick', timeout=600, mem_gb=10, kfs=(), plan=('E',) * 6, fmt='gzip', cberr=None, n1=None):
     maxstep = len(plan); RC = {'O': 'Z_OK', 'S': 'Z_STREAM_END', 'E': 'Z_DATA_ERROR', 'B': 'Z_BUF_ERROR'}
-    return Ob('glue.s%d.L%d_%d.%s%s' % (scen, len1, len2, ''.join(plan), ('' if fmt == 'gzip' else '.deflate') + ('' if cberr is None else '.cberr%d' % cberr) + ('' if n1 is None else '.n%d' % n1)), 'decomp/glue.c', units=UG, models=['@libc_model.c'], remove=[], defines=dict({'SCEN': scen, 'LEN1': len1, 'LEN2': len2, 'RCPLAN': '{' + ','.join(RC[c] for c in plan) + '}'}, **dict({} if fmt == 'gzip' else {'FMT_DEFLATE': 1}, **dict({} if cberr is None else {'CBERR': cberr}, **({} if n1 is None else {'N1': n1})))), unwind=max(len1, len2) + 3, unwindset=['htp_gzip_decompressor_decompress:1'],
+    return Ob('glue.s%d.L%d_%d.%s%s' % (scen, len1, len2, ''.join(plan), ('' if fmt == 'gzip' else '.deflate') + ('' if cberr is None else '.cberr%d' % cberr) + ('' if n1 is None else '.n%d' % n1)), 'decomp/glue.c', units=UG, models=['@libc_model.c'], remove=[], defines=dict({'SCEN': scen, 'LEN1': len1, 'LEN2': len2, 'RCPLAN': '{' + ','.join(RC[c] for c in plan) + '}'}, **dict({} if fmt == 'gzip' else {'FMT_DEFLATE': 1}, **dict({} if cberr is None else {'CBERR': cberr}, **({} if n1 is None else {'N1': n1, 'STEP_SPLIT': 1})))), unwind=max(len1, len2) + 3, unwindset=['htp_gzip_decompressor_decompress:1'],
               unwind_by=[(r'^harness', 16), (r'^LzmaDec_Allocate', 7), (r'^memcpy', 16), (r'^htp_gzip_decompressor_decompress\.0', 6), (r'^htp_gzip_decompressor_decompress\.1', maxstep + 4), (r'^htp_gzip_decompressor_probe', max(max(len1, len2) - 8, 2))],
               restrict_by=[(r'callback', 'cb')], fp_strict=True, tier=tier, timeout=timeout, mem_gb=mem_gb, kfs=list(kfs), flags=['--unwindset', 'htp_gzip_decompressor_decompress:1'] if False else [],
               statement='decompression glue scenario %d' % scen, bounds='chunks of %d and %d symbolic bytes' % (len1, len2))
@@ -25,5 +25,11 @@ def obligations(tier):
               bounds='all 62-bit entity lengths, every non-negative int32 limit, message length < 2^51, block length 0..8192, both directions')]
     combos = [('gzip', 'gzip', 'gzip'), ('gzip', 'deflate'), ('lzma', 'gzip'), ('gzip', 'lzma'), ('lzma', 'lzma'), ('x', 'gzip', 'none'), ('deflate',), ('gzip', 'x', 'lzma')]
     obs += [layers(c, spc) for c in combos for spc in (0, 6)]
-    obs += [glue(1, 4), glue(2, 5, 10, plan='OOS'), glue(3, 3, plan='OOS'), glue(3, 3, 2, plan='OOS', n1=2), glue(3, 3, 2, plan='OOS', n1=1), glue(4, 3, 0, plan='OOO', cberr=0), glue(4, 3, 2, plan='OOO', cberr=0, n1=2), glue(4, 3, 2, plan='OOO', cberr=1, n1=1)]
+    # the glue function itself, from a freshly created decompressor, against contract stubs of zlib / LzmaDec with constant return-code plans
+    obs += [glue(1, 4), glue(1, 12, kfs=['F12-restart-loses-chunk']), glue(1, 12, fmt='deflate', kfs=['F12-restart-loses-chunk']), glue(5, 3), glue(5, 2, fmt='deflate')]                      # pass-through
+    obs += [glue(2, a, 15 - a, plan='OOS') for a in (1, 5, 12)] + [glue(2, 13, 2, plan='OOS', n1=1), glue(2, 14, 1, plan='OOS', n1=1)] + [glue(2, 5, 10, plan='OOO'), glue(2, 7, 8, plan='S')]          # .lzma header split
+    obs += [glue(3, 3, plan='S'), glue(3, 3, plan='OS'), glue(3, 3, plan='OOS'), glue(3, 3, plan='OOO'), glue(3, 3, 2, plan='OOS', n1=1), glue(3, 3, 2, plan='OOO', n1=1),
+            glue(3, 3, plan='OOS', fmt='deflate')]                                                                                  # flow
+    obs += [glue(4, 3, 0, plan='OOO', cberr=0), glue(4, 3, 0, plan='OOS', cberr=1), glue(4, 3, 2, plan='OOO', cberr=0, n1=2), glue(4, 3, 2, plan='OOO', cberr=1, n1=1),
+            glue(4, 3, 2, plan='OOS', cberr=0, n1=1, fmt='deflate')]                                                                # nothing after a refusal
     return obs
